@@ -223,6 +223,18 @@ PROPS = {
         level_note='CloseSM abstracts the handshake to its API-visible outcomes; timing and concurrency of the handshake are C09/C05/C16.',
         technique='Go->Gallina translation of validWireCloseCode + Coq proofs (all of Z; induction over histories) + differential run against a scripted raw peer',
     ),
+    'C16': dict(
+        suites=['close', 'wire-out'],
+        rule='close suite (local Close with every code class, peer-initiated Close frames valid and malformed — the latter answered by an error close that leaves the connection open — '
+             'every order of Close/CloseNow, each followed by Write/Writer/Read/Ping/Close/CloseNow sequences) + wire-out programs ending in Close with an echoing peer; the raw peer records '
+             'every frame until the transport ends and the judge counts Close frames and data frames after the first Close. non-trivial = every case; distinct = distinct case line',
+        trusted=COMMON_TRUSTED + ['concurrent writers racing Close are covered by the sched suite when present; this check covers sequential histories incl. error-triggered closes'],
+        assumptions=['the interleaving part of the quantifier (Write racing Close in another goroutine) is modelled by the single close-sent flag consulted under writeFrameMu; see C05'],
+        level_text='Theorem C16_nothing_after_close: for every sequence of write-side operations (any order, incl. after Close), both roles, every configuration and compressor behaviour, '
+                   'only Pings/Pongs follow a Close frame on the wire. Tie: the library\'s recorded frames against echoing peers, sequential histories incl. protocol-error closes.',
+        level_note='the theorem is about the sequential Writer model (one flag under the frame lock); all-interleavings statement pending in the scheduler model.',
+        technique='Coq proof (invariant over operation sequences) + differential run against a recording raw peer',
+    ),
     'C03': dict(
         suites=['wire-in'], rule=WIREIN_RULE, trusted=COMMON_TRUSTED + READER_TRUST + [FLATE_ASSUME],
         assumptions=[FLATE_ASSUME, 'panics inside the Go standard library on hostile input are covered by the correspondence run only (any panic is an observation no model run produces)'],
